@@ -110,8 +110,32 @@ struct AotCWhole {
     localized: Arc<Vec<(isize, usize)>>,
 }
 
+#[cfg(feature = "verif")]
+impl AotCWhole {
+    /// Simulation seam: lets a simulator decide at which dispatch call the
+    /// background-compiled artifact becomes visible (see veryl_path::sim).
+    fn sim_visible(&self, is_const: bool) -> bool {
+        let id = Arc::as_ptr(&self.cell) as usize;
+        match veryl_path::sim::aot_gate(id, is_const, self.cell.get().is_some()) {
+            0 => false,
+            2 => {
+                let start = std::time::Instant::now();
+                while self.cell.get().is_none() && start.elapsed().as_secs() < 120 {
+                    std::thread::sleep(std::time::Duration::from_millis(2));
+                }
+                true
+            }
+            _ => true,
+        }
+    }
+}
+
 impl CompiledWhole for AotCWhole {
     fn try_dispatch(&self, ff: *const u8, comb: *mut u8, log: *mut u8) -> DispatchOutcome {
+        #[cfg(feature = "verif")]
+        if !self.sim_visible(false) {
+            return DispatchOutcome::NotReady;
+        }
         match self.cell.get() {
             Some(m) => {
                 // SAFETY: caller provides pointers valid for the
@@ -128,6 +152,10 @@ impl CompiledWhole for AotCWhole {
     }
 
     fn try_dispatch_const(&self, ff: *const u8, comb: *mut u8, log: *mut u8) -> DispatchOutcome {
+        #[cfg(feature = "verif")]
+        if !self.sim_visible(true) {
+            return DispatchOutcome::NotReady;
+        }
         match self.cell.get() {
             Some(m) => {
                 if let Some(f) = m.const_func {
